@@ -308,7 +308,26 @@ func mutate(t *rapid.T, s string) string {
 }
 
 func genCase(t *rapid.T) Case {
-	switch rapid.IntRange(0, 9).Draw(t, "entry") {
+	switch rapid.IntRange(0, 11).Draw(t, "entry") {
+	case 10, 11:
+		// arbitrary reference graphs (self loops, mutual loops, missing types, odd file names)
+		gp := gen.GraphProject(t)
+		for i := range gp.Types {
+			// distinct file names so that positions can be attributed to a text
+			if gp.Types[i].File != "" {
+				gp.Types[i].File = ""
+			}
+		}
+		seen := map[string]bool{}
+		var types []sut.Named
+		for _, ty := range gp.Types {
+			if !seen[ty.Name] {
+				seen[ty.Name] = true
+				types = append(types, ty)
+			}
+		}
+		gp.Types = types
+		return Case{Entry: "schema", Project: gp}
 	case 0:
 		items := rapid.SliceOfN(rapid.SampledFrom([]string{`"a"`, `1`, `1.5`, `true`, `null`, `"a"`, `{}`, `1e5`}), 0, 4).Draw(t, "items")
 		nl := rapid.SampledFrom([]string{"\n", "\r\n", "\r"}).Draw(t, "nl")
